@@ -589,9 +589,44 @@ fn scripted(out: &mut Out) {
         c.burst(&[format!("ev n1 ndata seq=8 ts={} id=9 ans=ok m=0", t0 + 102), format!("ev n1 ndata seq=9 ts={} id=10 ans=ok", t0 + 102)]);
         c.out.count("scripted");
     }
+    // (7) a LONG reordering inside one window of 256, fault-free: message k+2 (k = 128 / 200 / 253) overtakes the k
+    // messages before it and leads a burst, the overtaken ones follow in order in bursts of up to 12; every message
+    // arrives, fewer than 256 numbers are outstanding, the whole history takes < 30 ms (reorder timeout 100 ms /
+    // none): no NCMD (C07:no-spurious-rebirth), applied in publisher order, everything applied when the gap has
+    // closed (C05:prompt-apply/clean-burst)
+    for (j, (k, q)) in [(128u64, 1024u64), (128, 1), (200, 2), (253, 1024), (129, 2)].into_iter().enumerate() {
+        let cfg = format!("ip=0 bd=1 un=1 ud=1 um=1 rf=1 rs=1 to={} cd=0 rq=1 q={}", if j % 2 == 0 { "100" } else { "-" }, q);
+        let mut c = QCase::begin(out, &cfg, t0);
+        c.out.set_desc(format!("clean scripted long-overtake k={}", k));
+        c.q.sess.ordered_ids = true;
+        c.q.sess.clean = true;
+        let body = |i: u64| -> String {
+            if i % 3 == 0 {
+                format!("ev n1 ddata dev=1 seq={} ts={} id={} ans=ok", i, t0, i + 1)
+            } else {
+                format!("ev n1 ndata seq={} ts={} id={} ans=ok", i, t0, i + 1)
+            }
+        };
+        c.burst(&[format!("ev n1 nbirth ts={} bd=3 id=1 ans=ok", t0), format!("ev n1 dbirth dev=1 seq=1 ts={} id=2 ans=ok", t0)]);
+        let early = k + 2;
+        let mut evs = vec![body(early)];
+        for i in 2..early {
+            evs.push(body(i));
+            if evs.len() == 12 {
+                c.burst(&evs);
+                evs.clear();
+            }
+        }
+        if !evs.is_empty() {
+            c.burst(&evs);
+        }
+        c.adv(101);
+        c.out.count("scripted");
+        c.out.count("scripted:long-overtake");
+    }
 }
 
-pub const RULE: &str = "bursts through the real Application without quiescence in between (paused tokio time, mock clock frozen during a burst, recording stores; every event of a burst is handed to the event loop before anything is handled): (a) random cases, configuration as component host incl. node queue sizes 1/2/1024, 2-9 bursts of 2-12 events for 1-3 nodes: valid sessions with bounded reordering, duplicates, NDEATHs matching/mismatching, data for a never-seen node immediately followed by its NBIRTH, invalid payloads, host offline/online inside a burst, replayed NBIRTHs, unknown devices, store rejections, late old messages, between bursts sometimes time advanced to just before/after the reorder timeout; (b) fault-free bursts (oracle: no NCMD); (c) every burst of length <= 3 over an 11-symbol single-node alphabet (incl. a payload without metrics), fresh and after a settled NBIRTH+DBIRTH, queue sizes 1 and 2; (d) scripted witnesses; payloads without metrics (`m=0`) occur in every generated session (one message in eight), in the exhaustive alphabet and in a scripted fault-free burst (oracle C05:prompt-apply/clean-burst: on a fault-free history every message whose predecessors have arrived has been applied when the burst has been handled); one random case in three is cancelled (`AppClient::cancel()`) after its last burst or earlier, final Offline delivered or withheld, the bursts behind the cancel must observe nothing (C20:host-* clauses as in component host). Each line carries the per-node effect lists; the model answers whether some schedule of Model/HostQ produces exactly them. Non-trivial = a case with a burst of at least two events; distinct = distinct request-line sequences (hashed).";
+pub const RULE: &str = "bursts through the real Application without quiescence in between (paused tokio time, mock clock frozen during a burst, recording stores; every event of a burst is handed to the event loop before anything is handled): (a) random cases, configuration as component host incl. node queue sizes 1/2/1024, 2-9 bursts of 2-12 events for 1-3 nodes: valid sessions with bounded reordering, duplicates, NDEATHs matching/mismatching, data for a never-seen node immediately followed by its NBIRTH, invalid payloads, host offline/online inside a burst, replayed NBIRTHs, unknown devices, store rejections, late old messages, between bursts sometimes time advanced to just before/after the reorder timeout; (b) fault-free bursts (oracle: no NCMD); (c) every burst of length <= 3 over an 11-symbol single-node alphabet (incl. a payload without metrics), fresh and after a settled NBIRTH+DBIRTH, queue sizes 1 and 2; (d) scripted witnesses, incl. a fault-free LONG reordering inside one window of 256 (one message overtakes the 128/129/200/253 before it and leads a burst, the overtaken ones follow in bursts of 12; node queue 1/2/1024; oracles no NCMD, applied in order, all applied when the gap has closed); payloads without metrics (`m=0`) occur in every generated session (one message in eight), in the exhaustive alphabet and in a scripted fault-free burst (oracle C05:prompt-apply/clean-burst: on a fault-free history every message whose predecessors have arrived has been applied when the burst has been handled); one random case in three is cancelled (`AppClient::cancel()`) after its last burst or earlier, final Offline delivered or withheld, the bursts behind the cancel must observe nothing (C20:host-* clauses as in component host). Each line carries the per-node effect lists; the model answers whether some schedule of Model/HostQ produces exactly them. Non-trivial = a case with a burst of at least two events; distinct = distinct request-line sequences (hashed).";
 
 pub fn run(args: &Args, out: &mut Out) -> &'static str {
     let mut rng = Rng::new(args.seed);
